@@ -94,21 +94,6 @@ async fn run_op(store: &FileStore, log_manager: &Addr<RaftLogManager>, index_man
                 Err(_) => "err".to_string(),
             }
         }
-        // the log part of finalize_snapshot_installation
-        ["install", i, t, through] => {
-            let so = if *through == "-" { 0 } else { n(through) + 1 };
-            if !matches!(log_manager.send(RaftLogManagerRequest::SplitOff(so)).await, Ok(Ok(_))) {
-                return "err".to_string();
-            }
-            let e: Entry<ClientRequest> = Entry::new_snapshot_pointer(n(i), n(t), "1".to_string(), MembershipConfig::new_initial(1));
-            match StoreUtils::entry_to_record(&e) {
-                Ok(r) => match log_manager.send(RaftLogManagerRequest::InstallSnapshotPointerLog(r)).await {
-                    Ok(Ok(_)) => "ok".to_string(),
-                    _ => "err".to_string(),
-                },
-                Err(_) => "err".to_string(),
-            }
-        }
         ["hs", t, v] => {
             let hs = async_raft_ext::storage::HardState { current_term: n(t), voted_for: if n(v) == 0 { None } else { Some(n(v)) } };
             match store.save_hard_state(&hs).await {
